@@ -207,7 +207,8 @@ func (e *evaluator) evalRulesEx(v Val, rules []gen.Rule, exemplar *Val, depth in
 		var vs []Verdict
 		var whys []string
 		for _, alt := range orv.List {
-			av, why := e.evalAlternative(v, alt, depth+1)
+			// an alternative has no example of its own: `const: true` inside it means the annotated value
+			av, why := e.evalAlternative(v, alt, exemplar, depth+1)
 			vs = append(vs, av)
 			whys = append(whys, why)
 		}
@@ -565,10 +566,14 @@ func enumHas(items []string, v Val) (Verdict, string) {
 }
 
 // evalAlternative judges v against one item of an `or` list.
-func (e *evaluator) evalAlternative(v Val, alt gen.RV, depth int) (Verdict, string) {
+func (e *evaluator) evalAlternative(v Val, alt gen.RV, exemplar *Val, depth int) (Verdict, string) {
 	switch {
 	case alt.IsSet || len(alt.Set) > 0:
-		return e.evalRulesEx(v, alt.Set, nil, depth)
+		var ex *Val
+		if c, ok := ruleLit(alt.Set, "const"); ok && c == "true" {
+			ex = exemplar // only the constant looks at it (nil: the value is the annotated value itself)
+		}
+		return e.evalRulesEx(v, alt.Set, ex, depth)
 	case alt.Lit != "":
 		name := unq(alt.Lit)
 		if strings.HasPrefix(name, "@") {
